@@ -20,7 +20,14 @@ Definition C08_enumeration_shape_pinned : pin_c08_enum_ok = true := eq_refl.
 
 (* which branch is live on the tree under test: (lookup, constant-reference, non-.j2, support-templates) repairs recognised,
    call path effect-free, namespace/type file clash check present *)
-Eval vm_compute in (k_fix_lookup the_code, k_fix_constref the_code, k_fix_nonj2 the_code, k_fix_suptpl the_code, k_path_pure the_code, k_ns_check the_code).
+Eval vm_compute in (k_fix_lookup the_code, k_fix_constref the_code, k_fix_nonj2 the_code, k_fix_suptpl the_code, k_path_pure the_code, k_ns_check the_code, k_stem_check the_code).
+
+(* obligation: the four --list-inputs repairs (lookup dependencies, constant-only references, non-.j2 template resources,
+   --support-templates overrides) are recognised in the tree under test; (3) below is therefore the live statement.  A tree that
+   loses one of them breaks here and the check's falsifier looks for the input (the findings are recorded as fixed). *)
+Example C08_list_inputs_repairs_present :
+  k_fix_lookup the_code = true /\ k_fix_constref the_code = true /\ k_fix_nonj2 the_code = true /\ k_fix_suptpl the_code = true.
+Proof. exact the_repairs_present. Qed.
 
 (* (1) For ALL configurations (language data, flags, overrides, template directories), ALL input sets and ALL file systems:
    if the real run (same options, no listing/dry-run flag) succeeds from an empty output tree, then --list-outputs with the same
@@ -52,17 +59,17 @@ Print Assumptions C08_list_modes_pure.
    fields AND the definitions referred to only inside expressions, transitively).  Configuration inputs (lang/properties.yaml and
    --configuration files) also influence the output; they are neither templates nor DSDL files, --list-inputs does not name
    them (Example C08_config_inputs_not_listed), and the statement excludes them explicitly.
-   `ns_clash` (a namespace file whose path is a type's file: build_namespace_tree raises before anything is listed) and `rejected`
+   `ns_clash` (an invalid namespace file stem, or a namespace file whose path is a type's file: ValueError before anything is
+   listed) and `rejected`
    are the two configurations in which no mode does anything at all.
    Residual hypotheses: no Python package file (.py/.pyc) is in the template closure, and no rendered support template refers
    to further templates (the support listing names the rendered resources only). *)
 Theorem C08_list_inputs_complete :
-  k_fix_lookup the_code = true -> k_fix_constref the_code = true -> k_fix_nonj2 the_code = true -> k_fix_suptpl the_code = true ->
   forall (c : cfg) (i : inputs), f_lc (c_flags c) = false -> rejected c = false -> ns_clash the_code c i = false ->
   trig_py the_code c i = false -> trig_sup_refs the_code c = false ->
   forall x, In x (all_influences the_code c i) -> is_config_input c x = false ->
   forall f, exists out, run the_code (li_of c) i f = (f, out, Ok) /\ In x out.
-Proof. exact list_inputs_complete_thm. Qed.
+Proof. exact list_inputs_complete_live. Qed.
 Print Assumptions C08_list_inputs_complete.
 
 (* (3') The same for a tree that lacks some of the repairs: the EFFECTIVE triggers (the eff_trig definitions in Gen/Listing.v) are
@@ -75,16 +82,6 @@ Theorem C08_list_inputs_complete_partial :
   forall f, exists out, run the_code (li_of c) i f = (f, out, Ok) /\ In x out.
 Proof. exact list_inputs_partial_thm. Qed.
 Print Assumptions C08_list_inputs_complete_partial.
-
-(* F-LIST-INPUTS-CONSTREF (known until design_notes/C08_constref_fix.patch is in the tree; then the premise is false, (3) is live and
-   this statement moves to History): a definition from a lookup directory that is referred to only inside an expression (array
-   capacity, constant value, @assert, @extent) influences the output and is not listed. *)
-Theorem C08_list_inputs_constref_refuted : k_fix_constref the_code = false ->
-  exists (c : cfg) (i : inputs) (x : list (list N)),
-    trig_constref i = true /\ trig_lookup i = false /\ eff_trig_tpl the_code c i = false /\ eff_trig_sup the_code c = false
-    /\ path_in x (influence_set the_code c i) = true /\ path_in x (listed c i) = false.
-Proof. intros H. exists (w_cfg SAsNeeded false None None), w_inputs_constref, [[108]; [68]]. exact (list_inputs_constref_refuted_w H). Qed.
-Print Assumptions C08_list_inputs_constref_refuted.
 
 (* (3b) What --list-inputs prints for the type generator is the set of PATHS of the listable files that its loader chain can
    serve (not names: the same basename in two directories gives two entries); for the support generator the path
@@ -148,6 +145,12 @@ Example C08_only_pod_lists_nothing :
   /\ snd (run the_code (real_of c) w_inputs_plain fs_empty) = Ok
   /\ created c w_inputs_plain [[111]; [110]; [115; 46; 104]] = None.
 Proof. exact example_only_pod. Qed.
+
+Example C08_invalid_namespace_stem_refused : k_stem_check the_code = true ->
+  run the_code (real_of w_cfg_badstem) w_inputs_plain fs_empty = (fs_empty, [], NsClash)
+  /\ snd (run the_code (lo_of w_cfg_badstem) w_inputs_plain fs_empty) = NsClash
+  /\ snd (fst (run the_code (li_of w_cfg_badstem) w_inputs_plain fs_empty)) = [].
+Proof. exact example_bad_stem. Qed.
 
 Example C08_namespace_clash_refused : k_ns_check the_code = true ->
   run the_code (real_of w_cfg_clash) w_inputs_plain fs_empty = (fs_empty, [], NsClash)
